@@ -91,4 +91,9 @@ def confirmed_mismatch(f, x0, analytic, scale, f_abs_err=0.0, extra_tol=0.0):
     fine = min(est, key=lambda r: 10 * r[1] + r[2])
     if ill_conditioned(fine[2], max(scale, abs(fine[0]))):
         return False
-    return abs(analytic - fine[0]) > tolerance(fine[0], fine[1], fine[2], max(scale, abs(fine[0]))) + extra_tol
+    # the analytic value must be out of reach of EVERY scale, not only of the one with the smallest error bar: on an
+    # objective that is piecewise linear with closely spaced kinks (optimal transport with many small clusters) the
+    # truncation error of a central difference is O(h), the Richardson error bars - built for O(h^2) - are too
+    # optimistic, and the coarse estimate with its small round-off looks like the most precise one while the fine ones
+    # converge to the analytic value (met in the thorough tier of C03, seed 31: see DESIGN.md section 8)
+    return all(abs(analytic - r[0]) > tolerance(r[0], r[1], r[2], max(scale, abs(r[0]))) + extra_tol for r in est)
